@@ -32,6 +32,26 @@ REGISTRY = {
 }
 
 
+def _arm_total_watchdog(pid, tier):
+    """Last line of defence against a hang of the whole run (per-operation watchdogs normally turn a hang into
+    a reported violation): after SMV_TOTAL_LIMIT seconds the run ends as an internal error, never as a verdict."""
+    import signal
+    limit = int(os.environ.get("SMV_TOTAL_LIMIT", "3600" if tier == "quick" else "43200"))
+
+    def fire(signum, frame):
+        print(f"INTERNAL-ERROR {pid}: run exceeded {limit} s (this is not a property verdict)", file=sys.stderr, flush=True)
+        try:
+            os.killpg(os.getpgid(0), signal.SIGTERM)
+        finally:
+            os._exit(3)
+    try:
+        os.setpgrp()
+    except OSError:
+        pass
+    signal.signal(signal.SIGALRM, fire)
+    signal.alarm(limit)
+
+
 def main(argv=None) -> int:
     ap = argparse.ArgumentParser()
     ap.add_argument("pid")
@@ -43,6 +63,7 @@ def main(argv=None) -> int:
         print(f"unknown property {args.pid}", file=sys.stderr)
         return 3
     modname, runname, replayname = REGISTRY[args.pid]
+    _arm_total_watchdog(args.pid, args.tier)
     try:
         mod = importlib.import_module(modname)
         if args.replay:
